@@ -8,6 +8,8 @@ kinds:
                 matches must equal `expected`
   absent      : `pattern` must not match anywhere in `files`
   present     : `pattern` must match at least once in each of `files`
+  static_storage : the complete list of objects with static storage duration (file scope objects and
+                function-local statics) in `files` must equal `expected`
   order       : inside function `function` of `files[0]`, the regexes in `sequence`
                 must all match, in that order
 """
@@ -44,6 +46,54 @@ def enclosing_function(blank, pos):
     return '<unknown>'
 
 
+def static_storage(path):
+    """objects with static storage duration declared in a C file: file-scope object declarations and
+    function-local `static` objects (comments / strings / preprocessor lines blanked)"""
+    src = open(path, errors='replace').read()
+    b = inj.blank_comments_strings(src)
+    out = []
+    depth = 0
+    i = 0
+    n = len(b)
+    stmt_start = 0
+    head = ''
+    while i < n:
+        c = b[i]
+        if c == '{':
+            if depth == 0:
+                head = b[stmt_start:i]
+            depth += 1
+        elif c == '}':
+            depth -= 1
+            if depth == 0:
+                j = i + 1
+                h = head.strip()
+                if h.startswith('typedef'):
+                    k = b.find(';', i)
+                    i = k if k >= 0 else i
+                else:
+                    while j < n and b[j].isspace():
+                        j += 1
+                    if j < n and b[j] == ';':
+                        if '=' in h:
+                            out.append(re.sub(r'\s+', ' ', h)[:80])
+                        elif re.match(r'^(static\s+|const\s+)*(struct|union|enum)\s+\w*\s*$', h) is None and '(' not in h:
+                            out.append(re.sub(r'\s+', ' ', h)[:80])
+                        i = j
+                stmt_start = i + 1
+        elif c == ';' and depth == 0:
+            st = b[stmt_start:i].strip()
+            stmt_start = i + 1
+            if st and not st.startswith(('typedef', 'extern', 'EXTERN')) and '(' not in st and not re.match(r'^(struct|union|enum)\s+\w+$', st):
+                out.append(re.sub(r'\s+', ' ', st)[:80])
+        i += 1
+    for m in re.finditer(r'\bstatic\b[^;(){}]*[;=\[]', b):
+        d = b.count('{', 0, m.start()) - b.count('}', 0, m.start())
+        if d > 0:
+            out.append('local: ' + re.sub(r'\s+', ' ', m.group())[:80])
+    return out
+
+
 def run_fact(f, repo):
     res = dict(id=f['id'], text=f['text'], kind=f['kind'], status='pass', found=None, expected=f.get('expected'))
     files = _files(repo, f['files'])
@@ -76,6 +126,15 @@ def run_fact(f, repo):
                 if missing:
                     res['status'] = 'fail'
                     res['found'] = dict(missing=missing)
+        elif f['kind'] == 'static_storage':
+            found = []
+            for path in files:
+                for d in static_storage(path):
+                    found.append('%s: %s' % (os.path.relpath(path, repo), d))
+            res['found'] = sorted(found)
+            res['files_scanned'] = len(files)
+            if sorted(f['expected']) != sorted(found):
+                res['status'] = 'fail'
         elif f['kind'] == 'order':
             src = open(files[0], errors='replace').read()
             b = inj.blank_comments_strings(src) if not f.get('keep_pp') else src
